@@ -37,6 +37,8 @@ class Interp:
         vectors: names of the parameter vectors whose subscripts are slot reads (args / popt);  pack_lists: list names whose
         .append() defines a slot (init_guess_list)."""
         self.sel, self.lists, self.consts, self.vectors, self.pack_lists = selection, lists, consts, set(vectors), set(pack_lists)
+        # length of the packed vector for this selection: selected parameters + (dim - 1 anisotropy ratios when they are fitted)
+        self.total = sum(1 for v in selection.values() if v) + ((consts.get("model.dim", 1) - 1) if consts.get("anis") else 0)
 
     # ---------------------------------------------------------------- evaluation helpers
     def env(self, st):
@@ -70,6 +72,33 @@ class Interp:
             return None
         return bool(v) if isinstance(v, (bool, int, float)) else None
 
+    def int_value(self, e, st):
+        """integer value of an expression over cursors, constants and `sum(para[x] for x in LIST)` counts; raises FoldError"""
+        if isinstance(e, ast.UnaryOp) and isinstance(e.op, ast.USub):
+            return -self.int_value(e.operand, st)
+        if isinstance(e, ast.BinOp) and isinstance(e.op, (ast.Add, ast.Sub, ast.Mult)):
+            a, b = self.int_value(e.left, st), self.int_value(e.right, st)
+            return a + b if isinstance(e.op, ast.Add) else (a - b if isinstance(e.op, ast.Sub) else a * b)
+        if isinstance(e, ast.Call) and getattr(e.func, "id", "") == "sum" and len(e.args) == 1 and isinstance(e.args[0], (ast.GeneratorExp, ast.ListComp)) and len(e.args[0].generators) == 1:
+            g = e.args[0].generators[0]
+            it = ast.unparse(g.iter)
+            if it in self.lists and isinstance(g.target, ast.Name) and not g.ifs:
+                tot = 0
+                for item in self.lists[it]:
+                    st2 = st.copy()
+                    st2.names[g.target.id] = item
+                    v = self.test(e.args[0].elt, st2)
+                    if v is None:
+                        raise FoldError("summand not decidable")
+                    tot += int(bool(v))
+                return tot
+        if isinstance(e, ast.Call) and getattr(e.func, "id", "") == "len" and len(e.args) == 1 and ast.unparse(e.args[0]) in self.lists:
+            return len(self.lists[ast.unparse(e.args[0])])
+        v = fold(e, self.env(st))
+        if isinstance(v, bool) or not isinstance(v, int):
+            raise FoldError("not an int")
+        return v
+
     def key(self, e, st):
         if isinstance(e, ast.Constant) and isinstance(e.value, str):
             return e.value
@@ -89,9 +118,11 @@ class Interp:
                             raise CursorError("slice bound of %s is not a constant here" % ast.unparse(n))
                     continue
                 try:
-                    idx = fold(n.slice, self.env(st))
-                except (FoldError, TypeError):
+                    idx = self.int_value(n.slice, st)
+                except (FoldError, TypeError, KeyError):
                     raise CursorError("index of %s is not a constant here" % ast.unparse(n))
+                if idx < 0:
+                    idx += self.total  # counted from the end of the vector
                 if guard is None:
                     raise CursorError("read %s outside any `if para[...]` guard" % ast.unparse(n))
                 st.slots.setdefault(guard, set()).add(int(idx))
@@ -182,10 +213,7 @@ class Interp:
             if len(s.targets) == 1 and isinstance(s.targets[0], ast.Name):
                 nm = s.targets[0].id
                 try:
-                    v = fold(s.value, self.env(st))
-                    if isinstance(v, bool) or not isinstance(v, int):
-                        raise FoldError("not an int")
-                    st.ints[nm] = v
+                    st.ints[nm] = self.int_value(s.value, st)
                 except (FoldError, TypeError, KeyError):
                     st.ints.pop(nm, None)
             return [st]
@@ -193,7 +221,7 @@ class Interp:
             self.scan(s.value, st, guard)
             if isinstance(s.target, ast.Name) and s.target.id in st.ints:
                 try:
-                    d = fold(s.value, self.env(st))
+                    d = self.int_value(s.value, st)
                     op = {ast.Add: lambda a, b: a + b, ast.Sub: lambda a, b: a - b, ast.Mult: lambda a, b: a * b}.get(type(s.op))
                     if op is None or not isinstance(d, int):
                         raise FoldError("unsupported cursor update")
